@@ -200,6 +200,12 @@ class IdentifyObjEqDict(Contract):
         s = SECTIONS["images.Image"]
         top, o = _mk_sym(E, s)
         f = _sv_fields(E, o, s.fields, "x")
+        # additional_variants: an opaque list, or a concrete two-element list of symbolic names in caller order (the identity
+        # compares this list in order, so a writer that reorders it changes the identity of the written record)
+        if E.decide(E.fresh("two_additional_variants", z3.BoolSort())):
+            av = [SV(sym.Val.VStr(z3.Const("x.additional_variant%d" % i, sym.S))) for i in (0, 1)]
+            o.fields["additional_variants"] = list(av)
+            f["additional_variants"] = av
         E.assume(s.valid(self.T, o))
         return {"o": o, "f": f}
 
@@ -221,17 +227,56 @@ class IdentifyObjEqDict(Contract):
         cl = {"identity_computable": True, "identity_is_the_documented_attribute_tuple": names == doc and len(a) == 7}
         same = []
         for x, y in zip(a, b):
-            same.append(_veq(x, y) if not (isinstance(x, list) and isinstance(y, list)) else (x == y))
+            same.append(_veq(x, y))
         cl["object_and_dict_identity_agree"] = And(*same) if len(a) == len(b) else False
         if len(a) == 7 and names == doc:
             cl["identity_components_are_the_attributes"] = And(*[_veq(a[i], f[n]) for i, n in enumerate(doc[:5])])
         return cl
 
     def concretise(self, model, st):
-        return None
+        def val(v):
+            return [val(x) for x in v] if isinstance(v, list) else concretise.value_of(model, v)
+        return dict((k, val(v)) for k, v in st["f"].items())
+
+    def sample_inputs(self, rng):
+        base = {"path": "a.iso", "mtime": 1, "size": 2, "volume_id": None, "type": "dvd", "format": "iso", "arch": "x86_64",
+                "disc_number": 1, "disc_count": 1, "checksums": {"sha256": "a" * 64}, "implant_md5": None, "bootable": False,
+                "subvariant": "S", "unified": False, "additional_variants": []}
+        yield dict(base)
+        for av in (["Workstation", "Client"], ["Client", "Workstation"], ["B", "A", "C"], ["A"]):
+            yield dict(base, unified=True, additional_variants=av)
+        yield dict(base, arch="src", subvariant="", disc_number=0)
 
     def native_eval(self, inputs):
-        raise NotImplementedError
+        mod = self.src.mods["images"]
+        m = mod.Images()
+        im = mod.Image(m)
+        for k, v in copy.deepcopy(inputs).items():
+            setattr(im, k, v)
+        try:
+            im.validate()
+        except Exception:
+            return ("skip", None), None
+        lst = []
+
+        def run():
+            im.serialize(lst)
+            return mod.identify_image(im), mod.identify_image(lst[0])
+        nat = native_call(run)
+        if nat[0] == "raise":
+            return nat, {"identity_computable": False}
+        a, b = nat[1]
+        doc = ["subvariant", "type", "format", "arch", "disc_number", "unified", "additional_variants"]
+        names = list(mod.UNIQUE_IMAGE_ATTRIBUTES)
+        cl = {"identity_computable": True, "identity_is_the_documented_attribute_tuple": names == doc and len(a) == 7,
+              "object_and_dict_identity_agree": tuple(a) == tuple(b)}
+        if len(a) == 7 and names == doc:
+            cl["identity_components_are_the_attributes"] = all(_same(a[i], inputs[n]) for i, n in enumerate(doc[:5]))
+        return nat, cl
+
+    def describe(self, inputs):
+        return "Image(%s): identify_image(object) vs identify_image(serialised record)" % ", ".join(
+            "%s=%s" % (k, concretise.py_repr(v)) for k, v in inputs.items())
 
 
 class Add11Refile(Contract):
